@@ -61,9 +61,14 @@ type mfield struct {
 	classA         bool // generic alias + source-specific primary, no source-specific alias
 	aliasFromSrc   bool // aliased only through the source-specific alias tag
 	untaggedPrimay bool
-	embed          bool // embedded (anonymous) struct field of a registered type
-	pembed         bool // ... embedded by pointer
-	inEmbedded     bool // lives inside an embedded struct
+	// decName: name given by a hand-written tag of the decoder under test
+	// (json for JSON and Cue, yaml, toml); the decoder uses it for the
+	// ORIGINAL field whatever the dials tag is turned into on the way.
+	decName    string
+	decOK      bool
+	embed      bool // embedded (anonymous) struct field of a registered type
+	pembed     bool // ... embedded by pointer
+	inEmbedded bool // lives inside an embedded struct
 }
 
 type model struct {
@@ -74,6 +79,10 @@ type model struct {
 	// "upper_snake", "lower_snake" or "kebab") gives an untagged embedded
 	// field a key derived from its type name, so it is no longer promoted.
 	keyEnc string
+	// recaseAll: the decoder below the alias wrapper re-cases EVERY dials tag
+	// (and derives one from the name of untagged fields) with encoder keyEnc;
+	// every document key is then the encoder's join of the words.
+	recaseAll bool
 	// flattenAnon: the YAML decoder hoists the fields of embedded structs
 	// (ez Params.FlattenAnonymousFields; YAML only).
 	flattenAnon bool
@@ -106,6 +115,14 @@ func buildModel(s shape.Shape, src srcKind) (*model, error) {
 			tag := reflect.StructTag(f.Tag)
 			mf.dials, mf.dialsOK = tag.Lookup("dials")
 			mf.alias, mf.aliasOK = tag.Lookup("dialsalias")
+			if dk, ok := map[string]string{"json": "json", "cue": "json", "yaml": "yaml", "toml": "toml"}[src.name]; ok {
+				if v, has := tag.Lookup(dk); has {
+					mf.decName, mf.decOK = strings.Split(v, ",")[0], true
+					if mf.decName == "" || mf.decName == "-" {
+						return nil, fmt.Errorf("unsupported decoder tag on %s", mf.path)
+					}
+				}
+			}
 			if src.flatten && mf.leaf {
 				mf.sp, mf.spOK = tag.Lookup(src.spTag)
 				mf.sa, mf.saOK = tag.Lookup(src.spTag + "alias")
@@ -231,6 +248,19 @@ func (m *model) edges(f *mfield) []edge {
 	if f.spOK {
 		prim.abs = f.sp
 	}
+	if m.recaseAll && !(f.embed && m.flattenAnon && m.src.name == "yaml") {
+		w := prim.words
+		if f.embed && !f.dialsOK {
+			w = embedTypeWords[f.name]
+		}
+		prim.docKey = encodeKey(m.keyEnc, w)
+	}
+	if f.decOK {
+		// a hand-written json / yaml / toml tag is what the decoder goes by
+		// for the original field (tag copying and re-casing leave it alone);
+		// the alias copy does not inherit it
+		prim.docKey = f.decName
+	}
 	out := []edge{prim}
 	if f.hasAlias {
 		al := prim
@@ -241,6 +271,9 @@ func (m *model) edges(f *mfield) []edge {
 		}
 		if f.saOK {
 			al.abs = f.sa
+		}
+		if m.recaseAll && f.aliasOK {
+			al.docKey = encodeKey(m.keyEnc, al.words)
 		}
 		out = append(out, al)
 	}
@@ -333,6 +366,12 @@ func embedLabels(m *model, pats []patInst, lab map[string]bool) {
 	for _, p := range pats {
 		if p.f.inEmbedded {
 			lab["aliased-in-embedded:"+p.pat] = true
+		}
+		if p.f.decOK {
+			lab["aliased-with-decoder-tags:"+p.pat] = true
+			if p.f.depth > 0 {
+				lab["aliased-with-decoder-tags:nested"] = true
+			}
 		}
 	}
 }
